@@ -24,6 +24,10 @@ EVIDENCE = os.path.join(HERE, "evidence")
 REPLAYS = os.path.join(HERE, "replays")
 KNOWN = os.path.join(HERE, "known_findings.jsonl")
 NPROC = int(os.environ.get("VERIF_JOBS", "16"))
+if simlib.REPO != "/repo":
+    # sensitivity experiments against a scratch copy of mmtk-core: keep their output out of /verif
+    EVIDENCE = os.path.join(simlib.target_dir("A"), "out", "evidence")
+    REPLAYS = os.path.join(simlib.target_dir("A"), "out", "replays")
 
 # property -> engine, variants, (quick runs, thorough runs)
 SYS = "syssim"
@@ -37,6 +41,7 @@ PROPS = {
     "C06": dict(engine=SYS, variants=["A", "B"], quick=360, thorough=9000),
     "C07": dict(engine=SYS, variants=["A", "B"], quick=300, thorough=8000),
     "C08": dict(engine=SYS, variants=["A", "B"], quick=300, thorough=8000),
+    "C09": dict(engine=SYS, variants=["A", "C"], quick=200, thorough=4000),
     "C10": dict(engine=SYS, variants=["A", "C"], quick=360, thorough=9000),
     "C11": dict(engine=SYS, variants=["A", "B"], quick=360, thorough=9000),
     "C12": dict(engine=SYS, variants=["A", "C"], quick=360, thorough=9000),
@@ -46,7 +51,12 @@ PROPS = {
     "C16": dict(engine=SYS, variants=["A"], quick=300, thorough=8000),
     "C17": dict(engine=SYS, variants=["A", "B"], quick=360, thorough=9000),
     "C18": dict(engine=SYS, variants=["A", "B"], quick=360, thorough=9000),
+    "C28": dict(engine=SYS, variants=["A", "C"], quick=300, thorough=8000),
+    "C29": dict(engine=SYS, variants=["A", "C"], quick=64, thorough=1500),
     "C31": dict(engine=SYS, variants=["A"], quick=240, thorough=6000),
+    "C34": dict(engine=SYS, variants=["A", "C"], quick=200, thorough=4000),
+    "C36": dict(engine=SYS, variants=["A", "B"], quick=300, thorough=8000),
+    "C37": dict(engine=SYS, variants=["B", "C"], quick=300, thorough=8000),
     "C38": dict(engine=SYS, variants=["A"], quick=300, thorough=8000),
 }
 
@@ -178,7 +188,7 @@ def summarise_run(o):
     }
 
 
-def write_evidence(prop, tier, base_seed, results, wall, violations, known_hits, extra_assumptions=()):
+def write_evidence(prop, tier, base_seed, results, wall, violations, known_hits, extra_assumptions=(), other_violations=None):
     os.makedirs(EVIDENCE, exist_ok=True)
     ok = [o for o in results if o.get("status") in ("ok", "violation")]
     nontrivial = [o for o in ok if (o.get("pauses", 0) >= 1 or o.get("plan") == "NoGC") and o.get("sched", {}).get("switches", 0) >= 2]
@@ -236,6 +246,7 @@ def write_evidence(prop, tier, base_seed, results, wall, violations, known_hits,
             "harness_errors": len(harness_errors),
             "harness_error_samples": [o.get("message", "")[:200] for o in harness_errors[:3]],
             "known_findings_hit": known_hits,
+            "violations_of_other_properties_seen": other_violations or {},
             "real_vs_stub": "real: all of mmtk-core (plans, policies, allocators, metadata, scheduler, mmap). stub: the VM binding "
                             "(SimVM), blocking of Mutex/Condvar/RwLock (shim over the real try_lock), Instant (simulated clock), "
                             "thread scheduling (token scheduler), getrandom (fixed bytes)",
@@ -269,11 +280,12 @@ def do_check(prop, tier, base_seed):
         elif counts_for(prop, o):
             unknown.append(o)
         else:
-            key = (o.get("native_property"), o.get("class"))
+            key = (o.get("native_property"), o.get("class"), k["id"] if k else None)
             others.setdefault(key, []).append((o["_variant"], o["_seed"]))
-    for (n, c), runs in sorted(others.items()):
-        print("note: %d run(s) hit an oracle of another property (%s, class %s), e.g. variant %s seed %d; "
-              "that is decided by the check of %s" % (len(runs), n, c, runs[0][0], runs[0][1], n))
+    for (n, c, kid), runs in sorted(others.items(), key=lambda x: str(x[0])):
+        print("note: %d run(s) hit an oracle of another property (%s, class %s%s), e.g. variant %s seed %d; "
+              "that is decided by the check of %s" % (len(runs), n, c, ", known finding " + kid if kid else "",
+                                                       runs[0][0], runs[0][1], n))
     for k in known:
         n = known_hits.get(k["id"], 0)
         if n or prop in (k.get("properties") or []):
@@ -305,12 +317,14 @@ def do_check(prop, tier, base_seed):
         else:
             print("harness error: minimised replay did not reproduce (%s vs %s)" % (again.get("class"), fo.get("class")))
             rc = 2
-    write_evidence(prop, tier, base_seed, results, wall, len(unknown), known_hits)
+    write_evidence(prop, tier, base_seed, results, wall, len(unknown), known_hits,
+                   other_violations={"%s/%s" % (k[0], k[1]): len(v) for k, v in others.items()})
     if rc == 0 and herr and len(herr) * 10 > len(results):
         print("harness error: %d of %d runs failed in the harness: %s" % (len(herr), len(results), herr[0].get("message", "")[:300]))
         rc = 2
-    print("%s %s: %d runs in %.1fs, %d violations (%d known), %d harness errors" % (
-        prop, tier, len(results), wall, len(viols), len(viols) - len(unknown), len(herr)))
+    n_other = sum(len(r) for r in others.values())
+    print("%s %s: %d runs in %.1fs, %d violations of this property (+%d known findings, %d of other properties), %d harness errors" % (
+        prop, tier, len(results), wall, len(unknown), sum(known_hits.values()), n_other, len(herr)))
     return rc
 
 
